@@ -103,6 +103,21 @@ pub fn c04(tier: &str, seed: u64) -> Vec<Case> {
             all.push((p, "ext-rcode-no-opt".to_string()));
         }
     }
+    // packets that came out of the parser (reference-encoded messages with empty character-strings, OPT records at
+    // any index, unknown types, empty RDATA): what a forwarder serialises; framed like any other packet
+    {
+        let mut k = 0;
+        for (b, _) in crate::props::pk::hostile_messages(tier, seed ^ 0x4F4) {
+            if b.len() > 3000 { continue; }
+            let b: &'static [u8] = Box::leak(b.into_boxed_slice());
+            if let Ok(p) = std::panic::catch_unwind(|| Packet::parse(b)).unwrap_or(Err(SimpleDnsError::InsufficientData)) {
+                if p.answers.len() + p.name_servers.len() + p.additional_records.len() == 0 { continue; }
+                all.push((p, "parsed".to_string()));
+                k += 1;
+                if k >= (if thorough { 3000 } else { 300 }) { break; }
+            }
+        }
+    }
     // messages beyond 16 KiB with names on both sides of offset 16383 (framing of the vector entry points only)
     for (k, (p, tag)) in boundary_packets(tier).into_iter().enumerate() { if thorough || k % 4 == 0 { all.push((p, tag)); } }
     for (i, (p, tag)) in all.into_iter().enumerate() {
@@ -226,6 +241,16 @@ fn name_sites(b: &[u8], w: &walker::Walk) -> Option<Vec<(usize, bool)>> {
     Some(sites)
 }
 
+/// `write_compressed_to` through a sink that takes a few bytes per call: the bytes must be those of
+/// `build_bytes_vec_compressed` (positions are counted from what was accepted, not from what was offered)
+fn slow_sink_same(p: &Packet, want: &[u8], chunk: usize, prefix: usize) -> bool {
+    let mut sink = SlowSink { inner: std::io::Cursor::new(vec![0xEEu8; prefix]), chunk, interrupt: chunk % 2 == 1, tick: 0 };
+    use std::io::Seek;
+    let _ = sink.seek(std::io::SeekFrom::Start(prefix as u64));
+    let ok = std::panic::catch_unwind(std::panic::AssertUnwindSafe(|| p.write_compressed_to(&mut sink).is_ok())).unwrap_or(false);
+    ok && sink.inner.get_ref()[prefix..] == want[..]
+}
+
 pub fn c07(tier: &str, seed: u64) -> Vec<Case> {
     let thorough = tier == "thorough";
     let mut v = vec![];
@@ -237,6 +262,7 @@ pub fn c07(tier: &str, seed: u64) -> Vec<Case> {
         all.retain(|(_, tag)| { k += 1; k <= 1800 || tag == "big" || tag == "many-names" || tag == "boundary-16383" });
     }
     for (p, tag) in all {
+        if tag == "nsec-unordered" { continue; }
         let comp = match p.build_bytes_vec_compressed() { Ok(b) => b, Err(_) => continue };
         let plain = match p.build_bytes_vec() { Ok(b) => b, Err(_) => continue };
         let ptxt = text::packet(&p);
@@ -283,6 +309,15 @@ pub fn c07(tier: &str, seed: u64) -> Vec<Case> {
                 let mut c2 = Case::oracle_only().tag("offset-writer");
                 if !ok || inner[start..] != comp[..] { c2 = c2.fail("offset-writer-differs", format!("write_compressed_to at stream offset {} does not emit the message of build_bytes_vec_compressed (pointers must count from the first byte of the message)", start)); }
                 v.push(c2);
+            }
+            // ... and so does a sink that accepts 1, 3 or 5 bytes per call (and interrupts every other call), at
+            // offsets 0 and 2: the pointers count bytes accepted, not bytes offered
+            if pointers > 0 {
+                for (chunk, prefix) in [(1usize, 0usize), (3, 2), (5, 0)] {
+                    let mut c3 = Case::oracle_only().tag("slow-writer");
+                    if !slow_sink_same(&p, &comp, chunk, prefix) { c3 = c3.fail("offset-writer-differs", format!("write_compressed_to through a writer that accepts {} byte(s) per call, at stream offset {}, does not emit the message of build_bytes_vec_compressed", chunk, prefix)); }
+                    v.push(c3);
+                }
             }
         }
     }
